@@ -47,6 +47,7 @@ def run(ctx):
     rule_layout(ctx)
     rule_tab_container(ctx)
     rule_tab_bar(ctx)
+    rule_tab_unplayable(ctx)
     rule_tab_edges(ctx)
     rule_tab_composition(ctx)
     ctx.floor("R-C20-1", 6)
@@ -778,3 +779,31 @@ def rule_tab_bar(ctx):
                         ok, why = False, "reading the fret numbers column by column gives %s, the entries are %s" % (got, want)
 
         ctx.check(ok, R, "from_Bar[width=%d%s%s]" % (width, "" if meter[1] else ", free time", ", empty container" if with_empty else ""), f.where(), "tablature.from_Bar(<4 entries in %d/%d>, %d)" % (meter[0], meter[1], width), why)
+
+
+def rule_tab_unplayable(ctx):
+    """An entry that holds notes but has no fingering on this tuning is the fingering / range error, from every renderer:
+    it is never drawn as if it were a rest."""
+    R = "R-C20-T"
+    repo = ctx.repo
+    mod = repo.mod(TB)
+    nci, barci = repo.mod(NC).cls("NoteContainer"), repo.mod(BAR).cls("Bar")
+    strings = [note_stub(repo, "E", pitch=40), note_stub(repo, "A", pitch=45), note_stub(repo, "d", pitch=50)]
+    summ = base_summaries(repo)
+    summ["%s.StringTuning.find_fingering" % TU] = lambda it, a, k, n: []       # no fingering at all
+    summ["%s.StringTuning.find_frets" % TU] = lambda it, a, k, n: [None, None, None]
+    for label, fname, mk in (
+            ("from_Bar", "from_Bar", lambda: [AObj(barci, {"bar": [[0.0, 4, AObj(nci, {"notes": [note_stub(repo, "x"), note_stub(repo, "y")]}, name="c")]], "meter": (4, 4), "length": 1.0}, name="bar"),
+                                              40, tuning_obj(repo, strings), False]),
+            ("from_Bar, after a playable rest", "from_Bar", lambda: [AObj(barci, {"bar": [[0.0, 4, None], [0.25, 4, AObj(nci, {"notes": [note_stub(repo, "x")]}, name="c")]], "meter": (4, 4), "length": 1.0}, name="bar"),
+                                                                     40, tuning_obj(repo, strings), False]),
+            ("from_NoteContainer", "from_NoteContainer", lambda: [AObj(nci, {"notes": [note_stub(repo, "x"), note_stub(repo, "y")]}, name="c"), 40, tuning_obj(repo, strings)]),
+            ("from_Note", "from_Note", lambda: [note_stub(repo, "x", pitch=12), 40, tuning_obj(repo, strings)])):
+        f = mod.func(fname)
+        try:
+            paths = run_method(repo, f, mk, summaries=summ, max_depth=30)
+        except CannotDecide as e:
+            raise AnalysisError("tablature.%s(<unplayable>): %s" % (fname, e))
+        ok = bool(paths) and all(p.kind == "raise" and p.value in ("FingerError", "RangeError") for p in paths)
+        ctx.check(ok, R, "unplayable[%s]" % label, f.where(), "tablature.%s(<an entry with notes and no fingering on this tuning>)" % fname,
+                  "gives %s, expected the fingering / range error" % [(p.kind, short(repr(p.value), 60)) for p in paths])
